@@ -5,3 +5,4 @@ import J1939.Props.C10
 #print axioms J1939.Props.C10.c10_dt_keeps_snd
 #print axioms J1939.Props.C10.c10_rts_bam_keep_snd
 #print axioms J1939.Props.C10.c10_tickRcv_keeps_snd
+#print axioms J1939.Props.C10.c10_abort_releases
